@@ -160,6 +160,21 @@ pub fn run(run: &Run) {
             let s2 = format!("{}{}{} a{} {}{}", c.brackets.0, c.connecter_conjunction_sequential, c.separator, c.separator, s, c.brackets.1);
             cases.push((s2, val.map(|v| R::node(Tag::SeqConj, vec![R::word("a"), R::interval(v)]))));
         }
+        // every digit string of length 1..=5 over {0, 1, 9} as an interval spelling
+        let mut digs: Vec<String> = vec![String::new()];
+        for _ in 0..5 {
+            let mut next = vec![];
+            for d in &digs {
+                for ch in ['0', '1', '9'] {
+                    next.push(format!("{d}{ch}"));
+                }
+            }
+            for d in &next {
+                let v: usize = d.parse().unwrap();
+                cases.push((format!("{ip}{d}"), Some(R::interval(v))));
+            }
+            digs = next;
+        }
         cases.sort();
         cases.dedup();
         run.add_distinct(cases.len() as u64);
